@@ -3,12 +3,14 @@ package main
 import (
 	"bytes"
 	"encoding/json"
+	"errors"
 	"fmt"
 	"io"
 	"os"
 	"path/filepath"
 
 	"github.com/XiXi-2024/xixi-kv/datafile"
+	"github.com/XiXi-2024/xixi-kv/verifrt/iorec"
 )
 
 // C11 — block/chunk framing round-trips every record at every offset (data-file level sweep).
@@ -223,6 +225,36 @@ func c11Run(ioType byte, fillerLen int, c c11Case, res *TaskResult) (v *Violatio
 	}
 	if v := verify(df, "after reopen+append"); v != nil {
 		return v, fileBytes, startOff
+	}
+	// a write the device refuses appends nothing: size and the next position stay where they were
+	{
+		saveBefore := iorec.Before
+		refused := 0
+		iorec.Before = func(op, path, path2 string, n int64) error {
+			if op == "write" || op == "rw.write" || op == "writeat" {
+				refused++
+				return errors.New("injected: the device refuses this write")
+			}
+			return nil
+		}
+		rec := datafile.LogRecord{Key: []byte("q"), Value: patternBytes(40, 11)}
+		_, werr := df.WriteLogRecord(&rec, hdr)
+		iorec.Before = saveBefore
+		if refused > 0 {
+			res.count("refused_writes", 1)
+			if werr == nil {
+				return fail("write-error-swallowed", "the device refused the write but WriteLogRecord returned nil"), fileBytes, startOff
+			}
+			if got := df.Size(); got != prevEnd {
+				return fail("logical-size", "after a refused write: DataFile.Size() = %d, end of the last record = %d", got, prevEnd), fileBytes, startOff
+			}
+			if v := writeOne(recSpec{Key: "x", VLen: 6}, 12, "append after a refused write"); v != nil {
+				return v, fileBytes, startOff
+			}
+			if v := verify(df, "after refused write+append"); v != nil {
+				return v, fileBytes, startOff
+			}
+		}
 	}
 	if err := df.Close(); err != nil {
 		return fail("close", "Close: %v", err), fileBytes, startOff
